@@ -13,6 +13,9 @@
 (*   failKind  "error" (exception in a node, exit 4) or "interrupt"        *)
 (*             (KeyboardInterrupt, exit 5)                                 *)
 (*   traced    is a trace driver configured                                *)
+(*   rsFile    the run_space block comes from --run-space-file instead of  *)
+(*             the pipeline file (same plan, same gates: the file replaces *)
+(*             the inline block BEFORE the --run-space-* flags are merged) *)
 (* Exit codes (docs/source/cli.rst, EXIT_* constants):                     *)
 (*   1 usage, 2 missing file, 3 configuration, 4 runtime, 5 interrupt, 0 ok *)
 (***************************************************************************)
@@ -54,7 +57,9 @@ LE == <<"le", 0, "">>
 
 Scenarios ==
     {s \in [defect : Defects, validate : BOOLEAN, dryRun : BOOLEAN, rsDryRun : BOOLEAN,
-            runSpace : {"none", "ok"}, planned : 1..MaxRuns, failAt : 0..MaxRuns, failKind : {"error", "interrupt"}, traced : BOOLEAN] :
+            runSpace : {"none", "ok"}, planned : 1..MaxRuns, failAt : 0..MaxRuns, failKind : {"error", "interrupt"}, traced : BOOLEAN,
+            rsFile : BOOLEAN] :
+        /\ (s.rsFile => s.runSpace = "ok")
         /\ (NeedsRunSpace(s.defect) => s.runSpace = "ok")
         /\ (s.runSpace = "none" => s.planned = 1)       \* a run-space dry run without a run_space block plans the one default run
         /\ s.failAt <= s.planned
